@@ -2,6 +2,7 @@
 from .hist import FAMILY, MIX
 from .hist_arith import HistArith
 from .hist_sat import HistSat
+from .hist_io import HistIO
 
 _ARITH_MIX = {'new': 3, 'add_gate': 5, 'gadget': 22, 'copy': 1, 'rename': 1, 'connect': 2, 'mark_output': 1,
               'into_bench': 1, 'remove_gate': 1, 'replace_inputs': 1, 'set_outputs': 1}
@@ -10,10 +11,14 @@ for _p in ('C07', 'C08', 'C09'):
 MIX['C05'] = {'new': 4, 'add_gate': 7, 'rename': 1, 'connect': 2, 'into_bench': 1, 'replace_inputs': 1, 'mark_output': 2,
               'set_outputs': 2, 'tseytin': 12, 'circuit_sat': 8}
 MIX['C13'] = {'new': 5, 'add_gate': 6, 'rename': 1, 'connect': 1, 'copy': 1, 'mark_output': 2, 'set_outputs': 2, 'miter': 12}
+MIX['C16'] = {'new': 4, 'add_gate': 7, 'rename': 4, 'replace_subcircuit': 2, 'connect': 2, 'mark_output': 2, 'set_outputs': 1,
+              'remove_gate': 1, 'into_bench': 1, 'codec': 12, 'bitio': 3, 'dictio': 4, 'db_history': 3}
+MIX['C11'] = {'new': 4, 'add_gate': 7, 'rename': 4, 'connect': 2, 'mark_output': 2, 'set_outputs': 1, 'remove_gate': 1,
+              'replace_inputs': 1, 'into_bench': 1, 'gadget': 1, 'bench_roundtrip': 12, 'bench_layout': 6}
 FAMILY.update({'tseytin': 'C05', 'circuit_sat': 'C05', 'miter': 'C13', 'gadget': None})
 
 
-class HistAll(HistArith, HistSat):
+class HistAll(HistArith, HistSat, HistIO):
     def gen(self, rng, prop, tier, run_index):
         run = super().gen(rng, prop, tier, run_index)
         if prop in ('C07', 'C08', 'C09'):
